@@ -146,7 +146,7 @@ def writeDone (s : S) (exp : Bytes) (report : Nat) (o : WObs) : Option S :=
   then some { s with owed := exp.drop o.out.length, wpend := none } else none
 
 /-- `pump`, write side: a pending AsyncWriteNext progresses or completes. -/
-def pumpWrite (s : S) (w : WObs) : Option S :=
+def onPumpWrite (s : S) (w : WObs) : Option S :=
   match w.stat, s.wpend with
   | .none, none => if w.out = [] then some s else none
   | .pending, some _ =>
@@ -155,7 +155,7 @@ def pumpWrite (s : S) (w : WObs) : Option S :=
   | _, _ => none
 
 /-- `pump`, read side: a pending AsyncReadNext completes, stays pending, or there is none. -/
-def pumpRead (s : S) (r : RObs) : Option S :=
+def onPumpRead (s : S) (r : RObs) : Option S :=
   match r.stat with
   | .none => if s.rpend then none else some s
   | _ => if s.rpend then readDone s true r else none
@@ -195,7 +195,7 @@ def step (s : S) : Op → Obs → Option S
           then some { s with owed := (s.owed ++ frame p).drop o.out.length, wpend := some (s.owed ++ frame p).length }
           else none
       | _ => none
-  | .pump, .wr w r => (pumpWrite s w).bind (pumpRead · r)
+  | .pump, .wr w r => (onPumpWrite s w).bind (onPumpRead · r)
   | _, _ => none
 
 /-- Run the monitor over a trace. -/
